@@ -191,9 +191,12 @@ def conn_script(rng, c, attach, big=False, overflow=None):
     pk = []
     mode = 'attach' if (attach and rng.random() < 0.4) else 'full'
     if mode == 'full':
-        pk += [mk(True, SYN, isn_c, 0), mk(False, SYN | ACK, isn_s, isn_c + 1), mk(True, ACK, isn_c + 1, isn_s + 1)]
+        # the opening segments may carry other legal bits: ECN setup (RFC 3168: SYN|ECE|CWR, answered SYN|ACK|ECE), PSH, URG
+        xc = rng.choice([0, 0, 0xc0, 0xc0, 0x40, 0x80, PSH, 0x20, 0xc0 | PSH])
+        xs = rng.choice([0, 0, 0x40, 0x40, 0xc0, PSH])
+        pk += [mk(True, SYN | xc, isn_c, 0), mk(False, SYN | ACK | xs, isn_s, isn_c + 1), mk(True, ACK, isn_c + 1, isn_s + 1)]
         if rng.random() < 0.15:
-            pk.insert(1, mk(True, SYN, isn_c, 0))        # retransmitted SYN
+            pk.insert(1, mk(True, SYN | xc, isn_c, 0))        # retransmitted SYN
     streams = {}
     for from_client, isn in ((True, isn_c), (False, isn_s)):
         n = rng.choice([0, 1, 5, 20, 60]) if not big else rng.choice([200, 700])
